@@ -173,7 +173,7 @@ Proof.
   unfold itoa.
   destruct (itoa_aux_spec (N.to_nat (N.size n)) n []) as [ds [E [Hne [Hall Hv]]]].
   - rewrite N2Nat.id. pose proof (N.size_gt n). lia.
-  - rewrite E, app_nil_r. split; [assumption|]. split; [assumption|]. rewrite Hv. f_equal. lia.
+  - rewrite E, app_nil_r. split; [assumption|]. split; [assumption|]. rewrite Hv. f_equal; lia.
 Qed.
 
 Lemma is_digit_range c : is_digit c = true -> 48 <= c <= 57.
@@ -186,7 +186,7 @@ Proof.
   intros H. apply is_digit_range in H. split; [lia|].
   unfold ascii_space.
   destruct (N.eqb_spec c 9), (N.eqb_spec c 10), (N.eqb_spec c 11), (N.eqb_spec c 12),
-    (N.eqb_spec c 13), (N.eqb_spec c 32); try lia. reflexivity.
+    (N.eqb_spec c 13), (N.eqb_spec c 32); try lia; reflexivity.
 Qed.
 
 Lemma atoi_digits ds n :
@@ -227,5 +227,275 @@ Proof.
   intros E. destruct (itoa_spec n) as [_ [Hall _]]. rewrite Forall_forall in Hall.
   assert (Hc : is_digit c = true) by (apply Hall; rewrite E; apply in_or_app; right; now left).
   apply is_digit_range in Hc. unfold is_crlf.
-  destruct (N.eqb_spec c 13), (N.eqb_spec c 10); try lia. reflexivity.
+  destruct (N.eqb_spec c 13), (N.eqb_spec c 10); try lia; reflexivity.
 Qed.
+
+(* ---- TrimSpace on usable media types ---------------------------------------- *)
+
+Lemma trim_front_head rv : forall n x c y,
+  (length x <= n)%nat -> trim_front rv x = c :: y -> ascii_space c = false.
+Proof.
+  induction n as [|n IH]; intros x c y Hl H.
+  - destruct x; [discriminate | cbn in Hl; lia].
+  - destruct x as [|c1 s1]; [discriminate|]. cbn [trim_front] in H. cbn [length] in Hl.
+    destruct (ascii_space c1) eqn:E1.
+    + eapply IH; [|exact H]. lia.
+    + destruct s1 as [|c2 s2]; [inversion H; subst; exact E1|].
+      destruct (if rv then ws2 c2 c1 else ws2 c1 c2).
+      * eapply IH; [|exact H]. cbn [length] in Hl. lia.
+      * destruct s2 as [|c3 s3]; [inversion H; subst; exact E1|].
+        destruct (if rv then ws3 c3 c2 c1 else ws3 c1 c2 c3).
+        -- eapply IH; [|exact H]. cbn [length] in Hl. lia.
+        -- inversion H; subst; exact E1.
+Qed.
+
+Lemma not_space_not_crlf c : ascii_space c = false -> is_crlf c = false.
+Proof.
+  intros H. unfold ascii_space in H.
+  repeat (apply orb_false_iff in H; destruct H as [H ?]).
+  unfold is_crlf. apply orb_false_iff; split; assumption.
+Qed.
+
+(* a string that TrimSpace leaves alone does not end in white space *)
+Lemma trimmed_last l c : trim_space (l ++ [c]) = l ++ [c] -> is_crlf c = false.
+Proof.
+  intros H. unfold trim_space in H. apply (f_equal (@rev N)) in H.
+  rewrite rev_involutive in H. rewrite (rev_app_distr l [c]) in H. cbn [rev app] in H.
+  apply not_space_not_crlf. eapply trim_front_head; [apply le_n | exact H].
+Qed.
+
+Lemma usable_mime_spec mt : usable_mime mt = true -> trim_space mt = mt /\ ~ In 10 mt.
+Proof.
+  unfold usable_mime. rewrite andb_true_iff, negb_true_iff. intros [H1 H2].
+  split; [now apply beq_eq | now apply mem_false].
+Qed.
+
+(* ---- the header loop, one line at a time -------------------------------------- *)
+
+Lemma hdr_loop_S f ct cl s :
+  hdr_loop (S f) ct cl s =
+  let '(raw, rest, found) := read_string 10 s in
+  if negb found && is_nil raw then HErr EEOF rest
+  else if is_nil (trim_right_crlf raw) then HDone ct cl rest
+  else match split_colon (trim_right_crlf raw) with
+       | Some (name, value) =>
+           if beq (ascii_lower name) s_content_type then hdr_loop f (trim_space value) cl rest
+           else if beq (ascii_lower name) s_content_length then hdr_loop f ct (trim_space value) rest
+           else hdr_loop f ct cl rest
+       | None => HErr EInvalidHeader rest
+       end.
+Proof.
+  cbn [hdr_loop]. destruct (read_string 10 s) as [[raw rest] found].
+  destruct raw as [|c raw], found; cbn [negb andb is_nil]; try reflexivity;
+    destruct (trim_right_crlf (c :: raw)); reflexivity.
+Qed.
+
+(* a well-formed header line  name ":" value CR LF  *)
+Lemma hdr_loop_field f ct cl name value rest :
+  ~ In 10 name -> ~ In 10 value -> ~ In 58 name ->
+  trim_right_crlf (name ++ 58 :: value) = name ++ 58 :: value ->
+  hdr_loop (S f) ct cl ((name ++ 58 :: value) ++ 13 :: 10 :: rest) =
+    if beq (ascii_lower name) s_content_type then hdr_loop f (trim_space value) cl rest
+    else if beq (ascii_lower name) s_content_length then hdr_loop f ct (trim_space value) rest
+    else hdr_loop f ct cl rest.
+Proof.
+  intros Hn1 Hn2 Hc Ht. rewrite hdr_loop_S.
+  replace ((name ++ 58 :: value) ++ 13 :: 10 :: rest)
+    with (((name ++ 58 :: value) ++ [13]) ++ 10 :: rest) by (rewrite <- !app_assoc; reflexivity).
+  rewrite read_string_found.
+  2:{ intros Hx. apply in_app_or in Hx. destruct Hx as [Hx|[Hx|[]]]; [|discriminate].
+      apply in_app_or in Hx. destruct Hx as [Hx|[Hx|Hx]]; [tauto|discriminate|tauto]. }
+  cbn [negb andb].
+  replace (((name ++ 58 :: value) ++ [13]) ++ [10]) with ((name ++ 58 :: value) ++ [13; 10])
+    by (rewrite <- !app_assoc; reflexivity).
+  rewrite trim_right_crlf_app_crlf by (repeat constructor).
+  rewrite Ht.
+  assert (is_nil (name ++ 58 :: value) = false) as -> by (destruct name; reflexivity).
+  rewrite split_colon_found by assumption. reflexivity.
+Qed.
+
+Lemma hdr_loop_blank f ct cl rest : hdr_loop (S f) ct cl (13 :: 10 :: rest) = HDone ct cl rest.
+Proof. rewrite hdr_loop_S. reflexivity. Qed.
+
+Definition name_ct : bytes := [67; 111; 110; 116; 101; 110; 116; 45; 84; 121; 112; 101].            (* Content-Type *)
+Definition name_cl : bytes := [67; 111; 110; 116; 101; 110; 116; 45; 76; 101; 110; 103; 116; 104].  (* Content-Length *)
+
+Lemma nonempty_snoc (s : bytes) : s <> [] -> exists l c, s = l ++ [c].
+Proof. intros H. exists (removelast s), (last s 0). now apply app_removelast_last. Qed.
+
+Lemma hdr_loop_clen f ct cl n rest :
+  hdr_loop (S f) ct cl (s_content_length_hdr ++ itoa n ++ crlf ++ rest) = hdr_loop f ct (itoa n) rest.
+Proof.
+  change (s_content_length_hdr ++ itoa n ++ crlf ++ rest)
+    with ((name_cl ++ 58 :: 32 :: itoa n) ++ 13 :: 10 :: rest).
+  rewrite hdr_loop_field.
+  - change (beq (ascii_lower name_cl) s_content_type) with false.
+    change (beq (ascii_lower name_cl) s_content_length) with true.
+    cbv iota. now rewrite trim_space_space, trim_space_itoa.
+  - apply mem_false. reflexivity.
+  - intros [H|H]; [discriminate | exact (itoa_no_lf n H)].
+  - apply mem_false. reflexivity.
+  - destruct (itoa_spec n) as [Hne _]. destruct (nonempty_snoc _ Hne) as [l [c E]].
+    rewrite E.
+    replace (name_cl ++ 58 :: 32 :: l ++ [c]) with ((name_cl ++ 58 :: 32 :: l) ++ [c])
+      by (rewrite <- app_assoc; reflexivity).
+    apply trim_right_crlf_snoc. eapply itoa_last_not_crlf; eauto.
+Qed.
+
+Lemma hdr_loop_ctype f ct cl mt rest :
+  mt <> [] -> trim_space mt = mt -> ~ In 10 mt ->
+  hdr_loop (S f) ct cl (s_content_type_hdr ++ mt ++ crlf ++ rest) = hdr_loop f mt cl rest.
+Proof.
+  intros Hne Ht Hlf.
+  change (s_content_type_hdr ++ mt ++ crlf ++ rest)
+    with ((name_ct ++ 58 :: 32 :: mt) ++ 13 :: 10 :: rest).
+  rewrite hdr_loop_field.
+  - change (beq (ascii_lower name_ct) s_content_type) with true.
+    cbv iota. now rewrite trim_space_space, Ht.
+  - apply mem_false. reflexivity.
+  - intros [H|H]; [discriminate | auto].
+  - apply mem_false. reflexivity.
+  - destruct (nonempty_snoc _ Hne) as [l [c E]]. rewrite E in Ht |- *.
+    replace (name_ct ++ 58 :: 32 :: l ++ [c]) with ((name_ct ++ 58 :: 32 :: l) ++ [c])
+      by (rewrite <- app_assoc; reflexivity).
+    apply trim_right_crlf_snoc. now apply trimmed_last with (l := l).
+Qed.
+
+(* what Send writes *)
+Definition enc (mt r : bytes) : bytes :=
+  (match mt with [] => [] | _ => s_content_type_hdr ++ mt ++ crlf end)
+  ++ s_content_length_hdr ++ itoa (N.of_nat (length r)) ++ crlf ++ crlf ++ r.
+
+Lemma send_enc mt r : send mt r = Sent (enc mt r).
+Proof. reflexivity. Qed.
+
+Lemma enc_nonempty mt r : enc mt r <> [].
+Proof. unfold enc. destruct mt; cbn; discriminate. Qed.
+
+Lemma hdr_loop_enc f mt r rest :
+  usable_mime mt = true ->
+  hdr_loop (S (S (S f))) [] [] (enc mt r ++ rest) = HDone mt (itoa (N.of_nat (length r))) (r ++ rest).
+Proof.
+  intros Hu. destruct (usable_mime_spec _ Hu) as [Ht Hlf]. unfold enc.
+  destruct mt as [|m0 mt'].
+  - cbn [app]. rewrite <- !app_assoc. rewrite hdr_loop_clen. apply hdr_loop_blank.
+  - remember (m0 :: mt') as mt. rewrite <- !app_assoc.
+    rewrite hdr_loop_ctype; auto; [|subst; discriminate].
+    rewrite hdr_loop_clen. apply hdr_loop_blank.
+Qed.
+
+(* ---- the body: buffer policy and ReadFull / CopyN -------------------------------- *)
+
+Definition buf_bound : N := 33554432.   (* 2 * maxPrealloc: no receive buffer is ever longer *)
+
+Definition body_outcome (size : N) (cerr : option errkind) (st : N) (s : bytes) : result N :=
+  match take_n size s with
+  | (data, rest, true) => finish data cerr st rest
+  | ([], rest, false) => Err EEOF st rest
+  | (_, rest, false) => Err EUnexpectedEOF st rest
+  end.
+
+(* with a valid length and a buffer within the bound, the fixed code neither panics in make
+   nor slices beyond the buffer: it reads exactly [size] bytes *)
+Lemma recv_body_valid want ct cl st s z :
+  st <= buf_bound -> cl <> [] -> atoi cl = Some z -> (0 <= z)%Z ->
+  exists st', st' <= buf_bound /\
+    recv_body cfg_fixed want ct cl st s =
+    body_outcome (Z.to_N z) (if beq ct want then None else Some (EContentTypeMismatch ct)) st' s.
+Proof.
+  intros Hst Hne Ha Hz. unfold recv_body, body_outcome. destruct cl as [|c0 cl']; [congruence|].
+  rewrite Ha. destruct (Z.ltb_spec z 0) as [|_]; [lia|].
+  set (size := Z.to_N z). cbn [fix_F5 cfg_fixed andb].
+  unfold buf_bound, max_prealloc, shrink_above in *.
+  destruct (N.ltb_spec st size) as [Hlt|Hge]; [destruct (N.ltb_spec 16777216 size) as [Hbig|Hsmall]|];
+    rewrite ?andb_false_r; cbn [andb orb].
+  - exists st. split; [assumption | reflexivity].
+  - (* grow: make(2*size), size <= maxPrealloc *)
+    assert (Hw : wrap64 (z * 2) = (z * 2)%Z).
+    { unfold wrap64. rewrite Z.mod_small; lia. }
+    rewrite Hw. unfold make_slice, max_alloc.
+    destruct (Z.ltb_spec (z * 2) 0); [lia|]. destruct (Z.ltb_spec 281474976710656 (z * 2)); [lia|].
+    cbn [orb]. destruct (N.ltb_spec (Z.to_N (z * 2)) size); [lia|].
+    exists (Z.to_N (z * 2)). split; [lia | reflexivity].
+  - destruct ((1048576 <? st) && (size <? st / 4)) eqn:Esh.
+    + (* shrink *)
+      apply andb_true_iff in Esh. destruct Esh as [_ Esh]. apply N.ltb_lt in Esh.
+      assert (Hq : st / 4 <= 8388608).
+      { change 8388608 with (33554432 / 4). apply N.div_le_mono; lia. }
+      assert (Hw : wrap64 (z * 2) = (z * 2)%Z).
+      { unfold wrap64. rewrite Z.mod_small; lia. }
+      rewrite Hw. unfold make_slice, max_alloc.
+      destruct (Z.ltb_spec (z * 2) 0); [lia|]. destruct (Z.ltb_spec 281474976710656 (z * 2)); [lia|].
+      cbn [orb]. destruct (N.ltb_spec (Z.to_N (z * 2)) size); [lia|].
+      exists (Z.to_N (z * 2)). split; [lia | reflexivity].
+    + destruct (N.ltb_spec st size); [lia|]. exists st. split; [assumption | reflexivity].
+Qed.
+
+Lemma recv_strict_unfold c want st s :
+  recv_strict c want st s =
+  match hdr_loop (S (length s)) [] [] s with
+  | HOutOfFuel => OutOfFuel
+  | HErr e rest => Err e st rest
+  | HDone ct cl rest => recv_body c want ct cl st rest
+  end.
+Proof. reflexivity. Qed.
+
+Lemma recv_of_strict_ok c p want st s r st' rest :
+  recv_strict c want st s = Ok r st' rest -> recv c p want st s = Ok r st' rest.
+Proof. intros H. unfold recv. rewrite H. destruct p; reflexivity. Qed.
+
+Lemma recv_of_strict_err c p want st s e st' rest :
+  recv_strict c want st s = Err e st' rest -> recv c p want st s = Err e st' rest.
+Proof. intros H. unfold recv. rewrite H. destruct p; reflexivity. Qed.
+
+(* one framed record at the front of the stream *)
+Lemma recv_enc_ok p mt st r rest :
+  usable_mime mt = true -> (Z.of_nat (length r) <= max_int)%Z -> st <= buf_bound ->
+  exists st', recv cfg_fixed p mt st (enc mt r ++ rest) = Ok r st' rest /\ st' <= buf_bound.
+Proof.
+  intros Hu Hlen Hst.
+  assert (Hfuel : exists f, S (length (enc mt r ++ rest)) = S (S (S f))).
+  { unfold enc. rewrite !app_length. cbn [length s_content_length_hdr].
+    exists (length (match mt with [] => [] | _ :: _ => s_content_type_hdr ++ mt ++ crlf end) + 14
+            + (length (itoa (N.of_nat (length r))) + (length crlf + (length crlf + length r))) + length rest)%nat.
+    lia. }
+  destruct Hfuel as [f Hf].
+  destruct (itoa_spec (N.of_nat (length r))) as [Hne _].
+  destruct (recv_body_valid mt mt (itoa (N.of_nat (length r))) st (r ++ rest) (Z.of_N (N.of_nat (length r))))
+    as [st' [Hst' Hb]]; auto.
+  { apply atoi_itoa. lia. }
+  { lia. }
+  exists st'. split; auto. apply recv_of_strict_ok. rewrite recv_strict_unfold, Hf, hdr_loop_enc by assumption.
+  rewrite Hb. unfold body_outcome. rewrite N2Z.id, take_n_app, beq_refl. destruct r; reflexivity.
+Qed.
+
+Lemma recv_nil c p want st : recv c p want st [] = Err EEOF st [].
+Proof. destruct p; reflexivity. Qed.
+
+(* ---- C11 -------------------------------------------------------------------- *)
+
+Theorem hdr_round_trip : forall p mt rs st,
+  usable_mime mt = true -> st <= buf_bound ->
+  Forall (fun r => (Z.of_nat (length r) <= max_int)%Z) rs ->
+  send_all (send mt) rs = Some (concat (map (enc mt) rs)) /\
+  recv_all cfg_fixed p mt st (concat (map (enc mt) rs)) = map IRec rs ++ [IErr EEOF].
+Proof.
+  intros p mt rs st Hu Hst Hrs. split.
+  - apply send_all_sent. apply Forall_forall. intros r _. apply send_enc.
+  - unfold recv_all.
+    apply (round_trip (recv cfg_fixed p mt) (enc mt) (fun st => st <= buf_bound)
+             (fun r => (Z.of_nat (length r) <= max_int)%Z) (fun j => j = [])); auto.
+    + intros r _. apply enc_nonempty.
+    + intros st0 j r rest Hi -> Hr. cbn [app].
+      destruct (recv_enc_ok p mt st0 r rest Hu Hr Hi) as [st' [E Hi']].
+      exists st', []. auto.
+    + intros st0 j Hi ->. exists st0, [], st0, []. rewrite recv_nil. auto.
+Qed.
+
+Example hdr_round_trip_nonvacuous :
+  usable_mime lsp_mime = true /\ usable_mime [] = true /\
+  recv_all cfg_fixed Optional lsp_mime 0 (concat (map (enc lsp_mime) [[97]; []; [98; 99]]))
+  = [IRec [97]; IRec []; IRec [98; 99]; IErr EEOF] /\
+  recv_all cfg_fixed Strict [] 0 (concat (map (enc []) [[]; [10; 13]]))
+  = [IRec []; IRec [10; 13]; IErr EEOF].
+Proof. vm_compute. auto. Qed.
